@@ -7,7 +7,6 @@
 //! with C07_WORKER=1) that the parent watches with a wall clock: no answer within C07_TIMEOUT_MS (default
 //! 20 s) = "no termination observed" (o_res 1), worker died = o_res 2.  After 4 expiries the remaining cases
 //! are not run (o_res 7, never a verdict).
-use std::collections::BTreeMap;
 use std::io::{BufRead, BufReader, Write};
 use std::process::{Child, ChildStdin, Command, Stdio};
 use std::sync::atomic::{AtomicUsize, Ordering};
@@ -32,7 +31,7 @@ impl G {
     fn point(&mut self, key: u64) -> u64 {
         let asn = self.next_asn; self.next_asn += 1;
         let id = self.points.len() as u64;
-        self.points.push(Pt { key, module: id % 3, broken: 0, roas: vec![asn], certs: vec![] });
+        self.points.push(Pt { key, module: id % 2, broken: 0, roas: vec![asn], certs: vec![] });
         id
     }
     /// certificate in `from` for the key of point `to`
@@ -95,20 +94,20 @@ fn random_graph(r: &mut Rng) -> (G, u64, u64) {
         let key = if r.chance(1, 5) { r.below(n) } else { i };
         let id = g.point(key);
         let p = &mut g.points[id as usize];
-        p.module = r.below(3);
+        p.module = r.below(2);
         if r.chance(1, 12) { p.broken = r.range(1, 3); }
         match r.below(4) { 0 => p.roas.clear(), 1 => { let a = g.next_asn; g.next_asn += 1; g.points[id as usize].roas.push(a); } _ => {} }
     }
     let depth = *r.pick(&[0u64, 1, 1, 2, 2, 3, 3, 4, 5]);
-    let maxdeg = if depth >= 4 { 2 } else { 3 };
-    for i in 0..n {
-        for _ in 0..r.below(maxdeg + 1) {
-            let to = r.below(n);
-            let key = if r.chance(1, 7) { r.below(n + 1) } else { g.points[to as usize].key };
-            let bad = if r.chance(1, 10) { r.range(1, 3) } else { 0 };
-            g.points[i as usize].certs.push((key, to, bad));
-        }
-    }
+    let cert = |g: &mut G, r: &mut Rng, from: u64, to: u64| {
+        let key = if r.chance(1, 8) { r.below(n + 1) } else { g.points[to as usize].key };
+        let bad = if r.chance(1, 10) { r.range(1, 3) } else { 0 };
+        g.points[from as usize].certs.push((key, to, bad));
+    };
+    // a backbone that makes most points reachable, then extra edges in any direction (cycles, shared sub-trees)
+    for i in 1..n { if r.chance(5, 6) { let from = r.below(i); cert(&mut g, r, from, i); } }
+    let extra = r.below(if depth >= 4 { 3 } else { n + 1 });
+    for _ in 0..extra { let (from, to) = (r.below(n), r.below(n)); cert(&mut g, r, from, to); }
     g.tal(0);
     if r.chance(1, 3) { let p = r.below(n); g.tal(p); }
     let threads = if r.chance(1, 2) { 1 } else { 4 };
@@ -191,7 +190,7 @@ fn build_world(input: &Value) -> Built {
         s.spec.tals.push(TalSpec {
             name: format!("t{}", i), key,
             uris: vec![TaUriSpec {
-                uri: format!("rsync://ta.example/ta/t{}.cer", i),
+                uri: format!("rsync://h0.example/repo/ta/t{}.cer", i),
                 certs: vec![Some(TaCertSpec { ca: format!("p{}", t["point"].as_u64().unwrap()), key: Some(key), cert, resources: all.clone(), faults: vec![] })],
             }],
         });
@@ -207,14 +206,23 @@ fn build_world(input: &Value) -> Built {
         assert_eq!(ok, p["broken"].as_u64().unwrap() == 0, "ground truth of point {} disagrees with the case", ca.id);
         for (j, c) in p["certs"].as_array().unwrap().iter().enumerate() {
             let e = v.entries.iter().find(|e| e.name == format!("c{}.cer", j)).unwrap();
-            assert_eq!(e.obj.all_good() && e.listed, c["bad"].as_u64().unwrap() == 0, "ground truth of {}/{} disagrees", ca.id, e.name);
+            // res_within is relative to the canonical certificate of the publishing CA; a CA no good certificate
+            // names has none (and is never processed), so the bit is not compared there
+            let c0 = e.obj.cert().unwrap();
+            let good = e.listed && c0.decodes && c0.sig_ok && c0.valid_now && c0.crl_uri_ok && !c0.revoked
+                && (c0.res_within || ca.issuer_resources.is_empty());
+            assert_eq!(good, c["bad"].as_u64().unwrap() == 0, "ground truth of {}/{} disagrees", ca.id, e.name);
         }
     }
     built
 }
 
 fn run_world(input: &Value) -> Value {
-    let built = build_world(input);
+    // a failure of the generator itself is not an observation of the engine: res 8 makes the parent stop
+    let built = match std::panic::catch_unwind(|| build_world(input)) {
+        Ok(b) => b,
+        Err(e) => return json!({"res": 8, "note": e.downcast_ref::<String>().cloned().unwrap_or_else(|| "generator panicked".into())}),
+    };
     let world = World::new(built).expect("world");
     let cfg = RunCfg {
         max_ca_depth: input["depth"].as_u64().unwrap() as usize,
@@ -332,6 +340,7 @@ fn coq_obs(o: &Value) -> String {
 
 fn run(input: &Value) -> CaseOut {
     let obs = run_watched(input);
+    if obs["res"].as_u64() == Some(8) { panic!("harness failure (not a verdict): {} on input {}", obs["note"], input) }
     let coq = format!("{{| c_in := {}; c_impl := {} |}}", coq_input(input), coq_obs(&obs));
     let nontrivial = obs["invalid_certs"].as_u64().unwrap_or(0) > 0 || obs["res"].as_u64() != Some(0);
     CaseOut { obs, coq, nontrivial }
@@ -349,5 +358,4 @@ fn main() {
     // close the workers' stdin so that they exit
     let ws: Vec<Worker> = std::mem::take(&mut *POOL.lock().unwrap());
     for mut w in ws { drop(w.stdin); let _ = w.child.wait(); }
-    let _ = BTreeMap::<u8, u8>::new();
 }
